@@ -216,6 +216,31 @@ Definition s_regexp (a : args) : list (list Z) :=
            if snd (snd x) then code (like_spec (cps_of (nth (fst x mod k) ps [])) (cps_of (fst (snd x)))) else 2%Z)
         (combine (seq 0 n) (combine hs valid)) ].
 
+(* regexp_flags: [layout; n; k] [value validity (n)] [pattern validity (n)] [flag code per row (n)]
+   [pattern index per row (n)] n haystacks, k LIKE patterns, k regex source texts.
+   flag codes: -1 null (no flags), 0 "" (the complete pattern "(?)..." does not compile: the call is an error),
+   1 "i", 2 "s", 3 "is", 4 "m".  Row i: text (index i) under flags i against haystack i; null iff the value or
+   the pattern is null (a null flag means no flags).  "i" rows are generated with ASCII text only.
+   output: [text j = rendering of regex_like (pattern j)] then [row results] or [-1;3]. *)
+Definition s_regexp_flags (a : args) : list (list Z) :=
+  let n := Z.to_nat (nth 1 (arg 0 a) 0%Z) in let k := Z.to_nat (nth 2 (arg 0 a) 0%Z) in
+  let vv := bools_of (arg 1 a) in let pv := bools_of (arg 2 a) in
+  let fl := arg 3 a in let ix := map Z.to_nat (arg 4 a) in
+  let hs := rows a 5 n in let ps := rows a (5 + n) k in let ts := rows a (5 + n + k) k in
+  let rws := combine (combine hs (combine vv pv)) (combine fl ix) in
+  let live (x : (list N * (bool * bool)) * (Z * nat)) := if fst (snd (fst x)) then snd (snd (fst x)) else false in
+  let bad := existsb (fun x => if live x then Z.eqb (fst (snd x)) 0 else false) rws in
+  [ map (fun x : list N * list N => code (eq_cp (cps_of (snd x)) (render_rx (regex_like (cps_of (fst x)))))) (combine ps ts) ]
+  ++ (if bad then err_out 3 else
+      [ map (fun x => if live x then
+                        let f := fst (snd x) in
+                        let ci := Z.eqb f 1 || Z.eqb f 3 in
+                        let dotnl := Z.eqb f 2 || Z.eqb f 3 in
+                        let ml := Z.eqb f 4 in
+                        code (rx_is_match_f (if ci then ascii_ieq else N.eqb) dotnl ml
+                                            (regex_like (cps_of (nth (snd (snd x)) ps []))) (cps_of (fst (fst x))))
+                      else 2%Z) rws ]).
+
 Definition ops_C20 : list (string * opfun) :=
   [ ("c20.likes", m_likes); ("c20.likes.spec", s_likes);
     ("c20.likes_raw.post1", p_likes_raw);
@@ -223,4 +248,4 @@ Definition ops_C20 : list (string * opfun) :=
     ("c20.substr_char", m_substr_char); ("c20.substr_char.spec", s_substr_char);
     ("c20.length", m_length); ("c20.length.spec", s_length);
     ("c20.concat", m_concat); ("c20.concat.spec", s_concat);
-    ("c20.regexp.spec", s_regexp) ].
+    ("c20.regexp.spec", s_regexp); ("c20.regexp_flags.spec", s_regexp_flags) ].
